@@ -128,6 +128,9 @@ def _vardict(max_size=3):
 def comp_desc(draw, cid, platforms):
     c = {"stage": cid[0], "name": cid[1],
          "command": {"executable": draw(st.sampled_from(EXES)), "arguments": draw(_args())}}
+    if draw(st.integers(0, 7)) == 0:
+        # an interpreter component: its script is the first word of the (non-empty) arguments
+        c["command"] = {"interpreter": "bash", "arguments": ("run.sh " + c["command"]["arguments"]).strip()}
     if draw(st.integers(0, 9)) < 9:
         c["variables"] = draw(_vardict())
     if draw(st.booleans()):
@@ -245,11 +248,14 @@ def history(draw, max_ops=24, pool=POOL):
             ops.append([k, draw(st.integers(0, nstages - 1)), n, draw(_value(n))])
         elif k == "setpglobal":
             n = draw(st.sampled_from(VARS))
-            ops.append([k, n, draw(_value(n)), draw(st.sampled_from(platforms + [None]))])
+            # "N" is a platform that no section declares: set_platform_stage_variable creates it (a platform first created
+            # through the *global* setter is unusable until the description is reloaded - lateral defect, not generated)
+            have_n = any(o[0] == "setpstage" and o[4] == "N" for o in ops)
+            ops.append([k, n, draw(_value(n)), draw(st.sampled_from(platforms + [None] + (["N"] if have_n else [])))])
         elif k == "setpstage":
             n = draw(st.sampled_from(VARS))
             ops.append([k, draw(st.integers(0, nstages - 1)), n, draw(_value(n)),
-                        draw(st.sampled_from(platforms + [None]))])
+                        draw(st.sampled_from(platforms + [None] + platforms + [None, "N"]))])
         elif k == "add":
             absent = [c for c in pool if tuple(c) not in exists]
             cid = draw(st.sampled_from(absent)) if absent and draw(st.integers(0, 9)) < 9 else \
@@ -270,7 +276,7 @@ def history(draw, max_ops=24, pool=POOL):
         else:
             cid = target()
             flavour = draw(st.sampled_from(["full"] * 5 + ["raw", "nodefault", "primitive"]))
-            ops.append(["query", cid, draw(st.sampled_from(platforms + [None])), flavour,
+            ops.append(["query", cid, draw(st.sampled_from(platforms + [None] + platforms + ["N"])), flavour,
                         draw(st.integers(0, 9)) < 4])
     return {"spec": spec, "probe": "all" if draw(st.integers(0, 9)) < 7 else "sparse", "ops": ops}
 
@@ -377,11 +383,20 @@ class History:
             self._fresh = self.F.FlowIRConcrete(raw, self.active, None)
             self._fresh_answers = {}
 
-    def description_untouched(self, step, op):
-        if canon(self.live.raw()) != self._fresh_key:
+    def spoil(self, step, op, obj):
+        """Change a returned configuration in place; raw() must be the same immediately before and after. (A query may
+        itself normalise the description, e.g. add an empty `global` scope to a platform that a stage-level setter
+        created; that is not a change made through the returned object, so the snapshot is taken after the query.)"""
+        pre = canon(self.live.raw())
+        scribble(obj)
+        if canon(self.live.raw()) != pre:
             raise Violation("returned-config-aliases-description",
                             "step %d (%s): changing a returned configuration in place changed raw()" % (
                                 step, json.dumps(op)))
+
+    def description_untouched(self, step, op):
+        # queries only: whatever they normalised in the description must not change any answer -> rebuild and go on
+        self.refresh()
 
     def fresh_ask(self, cid, platform, flavour):
         k = (tuple(cid), platform, flavour)
@@ -418,7 +433,7 @@ class History:
         if got != want:
             self.fail(step, op, cid, platform, flavour, got, want)
         if obj is not None:
-            scribble(obj)
+            self.spoil(step, op, obj)
             again = self.ask(self.live, cid, platform, flavour)[0]
             if again != got:
                 self.fail(step, op, cid, platform, flavour, again, want)
@@ -464,8 +479,12 @@ class History:
                 L.set_stage_variable(op[1], op[2], op[3])
             elif k == "setpglobal":
                 L.set_platform_global_variable(op[1], op[2], op[3])
+                if op[3] == "N" and "N" not in self.platforms:
+                    self.platforms.append("N")         # from now on every probe also asks for the new platform
             elif k == "setpstage":
                 L.set_platform_stage_variable(op[1], op[2], op[3], op[4])
+                if op[4] == "N" and "N" not in self.platforms:
+                    self.platforms.append("N")
             elif k == "add":
                 L.add_component(copy.deepcopy(op[1]))
             elif k == "update":
@@ -489,7 +508,7 @@ class History:
         # interleaved reads and targets for in-place changes only
         got, obj = self.ask(self.live, cid, platform, flavour, want_obj=mut)
         if obj is not None:
-            scribble(obj)
+            self.spoil(step, op, obj)
             again = self.ask(self.live, cid, platform, flavour)[0]
             if again != got:
                 raise Violation("returned-config-not-private",
